@@ -64,6 +64,18 @@ class Site:
         return sp_file_line(self.sp)
 
 
+_NAMED_REF = []
+
+
+def _named_ref():
+    if not _NAMED_REF:
+        try:
+            _NAMED_REF.append(json.load(open(os.path.join(VERIF, "tables", "named_locals.json"))))
+        except Exception:
+            _NAMED_REF.append({})
+    return _NAMED_REF[0]
+
+
 def outer_macro(macs):
     """outermost user-visible macro of an expansion backtrace"""
     skip = {"$crate::panic::panic_2021", "$crate::const_format_args", "$crate::format_args", "format_args", "$crate::panic",
@@ -284,7 +296,7 @@ class Ledger:
             if why:
                 site.tactic, site.why = tac.__name__[2:], why
                 return True
-        e = self.db.get(site.key) or self._renamed_entry(site) or self._moved_entry(site)
+        e = self.db.get(site.key) or self._renamed_entry(site) or self._moved_entry(site) or self._callee_entry(site)
         if e:
             ok, why = self.verify_entry(site, e)
             if ok:
@@ -297,6 +309,59 @@ class Ledger:
     def db_variants(self, site):
         e = self.db.get(site.key) or {}
         return e.get("variants", [])
+
+    def _callee_entry(self, site):
+        """an arithmetic site on the fields of an aggregate parameter (`value.end - value.start` in `From<Range<usize>> for Span`): the
+        obligation is the caller's. Every caller in reach builds the aggregate in place, and for each the obligation written in its own
+        values (`end - offs`) is a reviewed / assumed entry of that caller which no current site of the caller claims (the arithmetic moved
+        here). The one entry all callers agree on is returned."""
+        if not site.kind.startswith("overflow:") or not site.operands:
+            return None
+        fn = site.fn
+        def param_field(e_):
+            if e_[0] == "field" and isinstance(e_[1], tuple) and e_[1][0] == "arg" and not str(e_[2]).isdigit():
+                return e_[1][1], e_[2]
+            return None
+        pf = [param_field(o) for o in site.operands]
+        if not all(x is not None or o[0] == "const" for x, o in zip(pf, site.operands)) or not any(pf):
+            return None
+        live = {s.key for s in self.sites}
+        found = []
+        ncallers = 0
+        for n in self.reach:
+            g = self.prog.fns[n]
+            for b, t, c in g.calls():
+                if c != fn.name:
+                    continue
+                ncallers += 1
+                ops_ = []
+                for x, o in zip(pf, site.operands):
+                    if x is None:
+                        ops_.append(o)
+                        continue
+                    idx, fname = x
+                    if idx - 1 >= len(t["args"]):
+                        return None
+                    a = g.expr(t["args"][idx - 1], 8, stop={"named"})
+                    while a[0] in ("ref", "deref"):
+                        a = a[1]
+                    if not (a[0] == "agg" and a[1][0] == "adt"):
+                        return None
+                    names_ = formula._FIELD_NAMES.get(a[1][1])
+                    if names_ is None and a[1][1] in self.prog.adts:
+                        names_ = [f_["name"] for f_ in self.prog.adts[a[1][1]]["variants"][0]["fields"]]
+                    if not names_ or fname not in names_ or names_.index(fname) >= len(a[2]):
+                        return None
+                    ops_.append(a[2][names_.index(fname)])
+                op = site.kind.split(":")[1]
+                key = "%s|%s|%s(%s)" % (short(n), site.kind, op, ", ".join(expr_str(o, 70) for o in ops_))
+                e = self.db.get(key)
+                if e is None or key in live or e.get("tactic") not in ("reviewed", "assumption"):
+                    return None
+                found.append(e)
+        if not found or ncallers != len(found) or any(e is not found[0] for e in found):
+            return None
+        return found[0]
 
     def _moved_entry(self, site):
         """the reviewed entry of a function that no longer exists, for a site of the same kind and the same operand shape: a helper written
@@ -329,10 +394,32 @@ class Ledger:
                         elif sd and sd[0] == "stmt" and sd[3]["r"]["k"] in ("bin", "cast"):
                             # `let image_end = orig + image.len();` - a named temporary for an arithmetic expression stands for that expression
                             temps[x[2]] = expr_str(site.fn.rvalue_expr(sd[3]["r"], 8, stop={"named"}), 80)
-        if not names:
-            return None
         live = {s.key for s in self.sites}
         prefix = "%s|%s|" % (short(site.fn.name), site.kind)
+        # the other direction: the reviewed entry names a local the function no longer has, and the site carries, in its place, what that
+        # local stood for on the reference tree (tables/named_locals.json, written by tools/mkanchors.py)
+        ref_named = _named_ref().get(short(site.fn.name), {})
+        if ref_named:
+            have = {site.fn.local_name(l) for l in range(len(site.fn.locals))}
+            gone = {k_: v_ for k_, v_ in ref_named.items() if k_ not in have}
+            if gone:
+                def norm_(d_):
+                    return d_.replace("\u2026", "").replace(" ", "")
+                mine_ = norm_(site.desc)
+                hits_ = []
+                for k, e in self.db.items():
+                    if not k.startswith(prefix) or k in live:
+                        continue
+                    theirs_ = re.sub(r"#\d+$", "", k[len(prefix):])
+                    unf_ = re.sub(r"[A-Za-z_][A-Za-z_0-9]*", lambda m_: gone.get(m_.group(0), m_.group(0)), theirs_)
+                    if unf_ != theirs_:
+                        u_ = norm_(unf_)
+                        if u_ == mine_ or (len(min(u_, mine_, key=len)) >= 30 and (u_.startswith(mine_) or mine_.startswith(u_))):
+                            hits_.append(e)
+                if len(hits_) == 1:
+                    return hits_[0]
+        if not names:
+            return None
         if copies:
             unfolded = re.sub(r"[A-Za-z_][A-Za-z_0-9]*", lambda m_: copies.get(m_.group(0), m_.group(0)), site.desc)
             k = prefix + unfolded
@@ -370,6 +457,27 @@ class Ledger:
                 x = x[1]
             if x[0] == "call" and re.search(r"Span::as_range$", str(x[1])) and len(x[2]) == 1:
                 g = self.prog.fns.get(str(x[1]))
+                # the accessor's own body with the receiver written in: `span.as_range()` is `span.offs()..span.end()`, the very text of the
+                # reviewed entry
+                if g is not None and g.arg_count == 1 and not kit.loops(g):
+                    recv = x[2][0]
+                    while recv[0] in ("ref", "deref"):
+                        recv = recv[1]
+                    def put(e_):
+                        if not isinstance(e_, tuple) or not e_:
+                            return e_
+                        if e_[0] == "deref" and isinstance(e_[1], tuple) and e_[1][:2] == ("arg", 1):
+                            return recv
+                        return tuple(put(y_) if isinstance(y_, tuple) and y_ and isinstance(y_[0], str) else
+                                     (tuple(put(z_) if isinstance(z_, tuple) else z_ for z_ in y_) if isinstance(y_, tuple) else y_) for y_ in e_)
+                    unf = put(g.local_expr(0, 10))
+                    d_ = "%s with %s" % (site.desc.split(" with ", 1)[0], expr_str(unf, 60))
+                    nrm = lambda t_: t_.replace("\u2026", "").replace(" ", "")
+                    for k, e in self.db.items():
+                        if k.startswith(prefix) and k not in live:
+                            tail_ = nrm(re.sub(r"#\d+$", "", k[len(prefix):]))
+                            if tail_ == nrm(d_) or (min(len(tail_), len(nrm(d_))) > 40 and (tail_.startswith(nrm(d_)) or nrm(d_).startswith(tail_))):
+                                return e
                 body = expr_str(g.local_expr(0, 10), 300) if g is not None else ""
                 if "Range" in body and "offs(" in body and ("end(" in body or "len(" in body):
                     sp_ = expr_str(x[2][0], 120)
@@ -782,6 +890,10 @@ class Ledger:
                     x = x[1]
                 lo = hi = None
                 incl = "RangeInclusive" in str(cond[1])
+                if rng[0] == "uneval":          # a range of literals lives in a promoted constant
+                    rng = kit.resolve_promoteds(self.prog, rng)
+                    while rng and rng[0] in ("ref", "deref"):
+                        rng = rng[1]
                 if rng[0] == "agg" and len(rng[2]) >= 2:
                     lo, hi = rng[2][0], rng[2][1]
                 elif rng[0] == "call" and str(rng[1]).endswith("RangeInclusive::<Idx>::new") and len(rng[2]) == 2:
@@ -1094,6 +1206,8 @@ class Ledger:
         elif k == "field":
             # typed field of a known struct: use the declared field type when we can find it
             r = self._field_range(e)
+            if r is None and str(e[2]) == "0" and e[1][0] == "downcast" and e[1][2] in ("Some", "Ok"):
+                r = self._payload_summary(e[1][1], e[1][2])
         elif k == "call" and e[1]:
             c = e[1]
             m = re.search(r"core::num::<impl (\w+)>::(\w+)$", c)
@@ -1140,6 +1254,42 @@ class Ledger:
                     if res[0] == k0:
                         res = (k0 + 1, res[1])
         return res
+
+    def _payload_summary(self, e, variant):
+        """range of the payload of `Some(..)` / `Ok(..)` returned by a loop-free function of the program all of whose returns of that variant
+        carry a constant (`fn len(&self) -> Option<usize> { match self { A => Some(4), .., E => None } }`)"""
+        while e[0] in ("ref", "deref"):
+            e = e[1]
+        if not (e[0] == "call" and e[1] in self.prog.fns):
+            return None
+        g = self.prog.fns[e[1]]
+        if g.bkind != "fn" or kit.loops(g):
+            return None
+        try:
+            tree = formula.decision(g, max_nodes=400)
+        except formula.NotATree:
+            return None
+        vals = []
+        def leaves(t_):
+            if t_[0] == "switch":
+                for s_ in list(t_[2].values()) + [t_[3]]:
+                    if not leaves(s_):
+                        return False
+                return True
+            lab = t_[1]
+            if lab == ("unreachable",):
+                return True
+            if not (isinstance(lab, tuple) and lab and lab[0] == "agg" and lab[1][0] == "adt"):
+                return False
+            if lab[1][2] != variant:
+                return True
+            if len(lab[2]) == 1 and lab[2][0][0] == "const" and isinstance(lab[2][0][1], int):
+                vals.append(lab[2][0][1])
+                return True
+            return False
+        if not leaves(tree) or not vals:
+            return None
+        return (min(vals), max(vals))
 
     def _field_range(self, e):
         name = e[2]
@@ -1209,6 +1359,18 @@ class Ledger:
                           self.ival(fn, fn.expr(site.extra["raw"][0], 12), cons))
             if m and a and m.group(1) in TY_RANGE and a[0] > TY_RANGE[m.group(1)][0]:
                 return "interval: operand in [%d,%d] excludes %s::MIN" % (a[0], a[1], m.group(1))
+        if site.kind == "index" and len(site.operands) == 2:
+            # a range slice of a fixed-size array: start <= end <= N
+            m = re.match(r"^&(?:mut )?\[[^;\]]+; (\d+)\]$", ((site.extra.get("arg_tys") or [""])[0]).strip())
+            rng = site.operands[1]
+            while rng[0] in ("ref", "deref"):
+                rng = rng[1]
+            if m and rng[0] == "agg" and rng[1][0] == "adt" and str(rng[1][1]).endswith("ops::range::Range") and len(rng[2]) == 2:
+                n_ = int(m.group(1))
+                a = self.ival(fn, rng[2][0], cons)
+                b = self.ival(fn, rng[2][1], cons)
+                if a and b and 0 <= a[0] and a[1] <= b[0] and b[1] <= n_:
+                    return "interval: the range [%d,%d]..[%d,%d] lies inside an array of %d" % (a[0], a[1], b[0], b[1], n_)
         if site.kind == "bounds":
             ln = self.ival(fn, site.operands[0], cons)
             ix = self.ival(fn, site.operands[1], cons)
